@@ -44,6 +44,20 @@ Theorem C18_reencode : forall int_to_f64 narrow widen,
   dyn_ser int_to_f64 narrow s j = DOk bs ->
   exists j', from_slice_dyn widen s bs = DOk j' /\ dyn_ser int_to_f64 narrow s j' = DOk bs.
 Proof. exact reencode. Qed.
+(* the same without the bound on array lengths (json_wf_g false: arrays and objects of any
+   length), for schemas that in addition have no sequence of zero-width elements (dno_zero, as in
+   C18_allocation_bounded): the encoder's output under an element schema of dmin >= 1 is at
+   least one byte per element (C18_encoder_output_at_least_min), so no accepted count exceeds the
+   bytes that follow it and the decoder's loop guard never cuts in *)
+Theorem C18_reencode_any_size : forall int_to_f64 narrow widen,
+  (forall b, b < 2 ^ 32 -> f32_finite b = true -> narrow (widen b) = b) ->
+  (forall b, narrow b < 2 ^ 32) ->
+  (forall z, int_to_f64 z < 2 ^ 64 /\ f64_finite (int_to_f64 z) = true) ->
+  forall s j bs, schema_wf s = true -> reenc_scope s = true -> dno_zero s = true -> json_wf_g false j = true ->
+  dyn_ser int_to_f64 narrow s j = DOk bs ->
+  exists j', from_slice_dyn widen s bs = DOk j' /\ dyn_ser int_to_f64 narrow s j' = DOk bs.
+Proof. exact reencode_any_size_nz. Qed.
+
 (* the hypotheses can be met and the encoder does accept such a value *)
 Example C18_reencode_nonvacuous :
   let widen := fun b => b in let narrow := fun b => b mod 2 ^ 32 in let i2f := fun _ : Z => 0 in
@@ -147,3 +161,4 @@ Print Assumptions C18_composite_arms_are_the_source.
 Print Assumptions C18_helpers_are_the_source.
 Print Assumptions C18_allocation_bounded.
 Print Assumptions C18_encoder_output_at_least_min.
+Print Assumptions C18_reencode_any_size.
